@@ -17,14 +17,17 @@ m = {
         "add_only": True,
     },
     "engines": [
-        {"name": "rapid-harness", "path": "harness/", "serves_properties": sorted(CHECKS), "kind_free_text": "pgregory.net/rapid v1.3.0 stateful/model-based property tests (plus testing/synctest for harness-owned schedules, native go fuzzing in the thorough tier) compiled against /repo's working tree; driver ./check"},
+        {"name": "rapid-harness", "path": "harness/", "serves_properties": sorted(set(CHECKS) & set(open(os.path.join(ROOT, "claimed.txt")).read().split())), "kind_free_text": "pgregory.net/rapid v1.3.0 stateful/model-based property tests (plus testing/synctest for harness-owned schedules, native go fuzzing in the thorough tier) compiled against /repo's working tree; driver ./check"},
     ],
     "checks": [],
     "not_applicable": [],
     "notes": "See DESIGN.md. Exit codes: 0 held, 1 VIOLATION line, 2 inconclusive (build failure/time-out). known_findings.json lists recorded/fixed genuine defects.",
 }
+# Only properties listed in claimed.txt (reviewed by the lead: green on the unchanged tree at
+# several seeds, sensitivity trials done) are claimed; the rest stays under not_applicable.
+claimed = set(open(os.path.join(ROOT, "claimed.txt")).read().split())
 for pid in props:
-    if pid in CHECKS:
+    if pid in CHECKS and pid in claimed:
         meta = META[pid]
         m["checks"].append({
             "property_id": pid,
